@@ -424,7 +424,8 @@ def run_twin(ob, scratch, box, keep_out=False):
         if ob.witnesses is not None:
             wit = [w for w in wit if w["description"][8:] in ob.witnesses]
         reach = [w["description"][8:] for w in wit if w.get("status") == "FAILURE"]
-        unreach = [w["description"][8:] for w in wit if w.get("status") != "FAILURE"]
+        # a witness name may be placed at several sites: one reachable site is enough
+        unreach = [w["description"][8:] for w in wit if w.get("status") != "FAILURE" and w["description"][8:] not in reach]
         if ob.witnesses is not None:
             unreach += [n for n in ob.witnesses if n not in reach and n not in unreach]
         box.update(status="ok", reach=reach, unreach=unreach, nwit=len(wit))
